@@ -195,7 +195,10 @@ impl FaultMix {
     /// `body_from` (1 for keys, 41 for signatures). `others` are other valid
     /// encodings of the same type (for splices and torn writes).
     pub fn draw(&self, rng: &mut Prng, len: usize, body_from: usize, others: &[&[u8]]) -> Fault {
-        let kinds = self.enabled();
+        let mut kinds = self.enabled();
+        if kinds.is_empty() {
+            kinds.push(0);
+        }
         let k = *rng.pick(&kinds);
         let fill = |rng: &mut Prng, n: usize| -> (Vec<u8>, &'static str) {
             match rng.below(4) {
